@@ -21,8 +21,9 @@ def mat(rng, r, c, lo=-12, hi=12, den=4):
 
 def gen(rng, tier):
     k = 1 if tier == 'quick' else 20
-    for i in range(36 * k):
-        nruns = rng.randint(1, 3)
+    # directed skeleton first (i < 4): one run, three runs, two runs, residuals of two runs
+    for i in range(-4, 36 * k):
+        nruns = {-4: 1, -3: 3, -2: 2, -1: 2}.get(i, rng.randint(1, 3))
         nscans = [rng.randint(3, 7) for _ in range(nruns)]
         filters = []
         for t in nscans:
@@ -45,6 +46,8 @@ def gen(rng, tier):
             case['reg'] = sorted(rng.sample(range(1, q + 1), rng.randint(1, q)))
             case['names'] = [f'Sn({1 + j % nruns}) cond{j}*bf(1)' for j in range(q)]
         yield case
+    for j in range(3 + 3 * k):
+        yield info_case(rng, {0: 2, 1: 1, 2: 3}.get(j, rng.randint(1, 3)))
     for fp, path in [('C:\\study\\sub01\\func\\run1.nii,1', '/data/proj/glm'),
                      ('/old/place/func/uasub-01_run-2.nii,17  ', '/data/proj/glm/'),
                      ('/old/functional/func/x_func.nii,3', 'rel/glm'),
@@ -90,6 +93,112 @@ def _np(m):
     return np.array([[float(F(x)) for x in r] for r in m])
 
 
+def info_case(rng, nruns):
+    """a whole SPM.mat (written by the harness): names, files, filters, design; then
+    get_info_from_spm_mat, get_betas and get_residuals on it"""
+    nscans = [rng.randint(3, 6) for _ in range(nruns)]
+    filters = [[[rat(x) for x in row] for row in householder_basis(rng, t, 2)] for t in nscans]
+    n, p = sum(nscans), rng.randint(1, 3)
+    names = []
+    for r in range(nruns):
+        for c in range(rng.randint(1, 2)):
+            names.append(f'Sn({r + 1}) {rng.choice(["face", "house", "A", "b2"])}{c}*bf(1)')
+    for r in range(nruns):
+        names.append(f'Sn({r + 1}) constant')
+    if len(names) < 3:
+        names.insert(0, 'Sn(1) extra*bf(1)')
+    q = len(names)
+    w = [[F(0)] * n for _ in range(n)]
+    for a in range(n):
+        w[a][a] = F(rng.randint(1, 8), 4)
+    sep = rng.choice(['/', '\\'])
+    raw = [sep.join(['C:' if sep == '\\' else '', 'old', 'study', 'func', f'ua_run{1 + i % nruns}.nii,{i + 1}'])
+           + rng.choice(['', '  ']) for i in range(n)]
+    return {'kind': 'spm_info', 'nscans': nscans, 'filters': filters, 'data': mat(rng, n, p),
+            'names': names, 'W': [[rat(x) for x in row] for row in w],
+            'X': mat(rng, n, q, -4, 4, 2), 'pinvX': mat(rng, q, n, -4, 4, 8),
+            'reg': sorted(rng.sample(range(1, q + 1), rng.randint(2, min(q, 4)))),
+            'raw': raw, 'beta_files': [f'beta_{i + 1:04d}.nii' for i in range(q)]}
+
+
+_SPMTMP = None
+
+
+def write_spm_mat(case):
+    """SPM.mat with the fields get_info_from_spm_mat reads; returns the GLM directory"""
+    global _SPMTMP
+    import hashlib
+    import json
+    import shutil
+    import tempfile
+    import numpy as np
+    from scipy.io import savemat
+    if _SPMTMP is None:
+        _SPMTMP = tempfile.mkdtemp(prefix='c20spm')
+        import atexit
+        atexit.register(shutil.rmtree, _SPMTMP, True)
+    d = os.path.join(_SPMTMP, hashlib.sha1(json.dumps(case, sort_keys=True).encode()).hexdigest()[:12], 'glm')
+    os.makedirs(d, exist_ok=True)
+    nr = len(case['nscans'])
+    K = np.zeros(nr, dtype=[('X0', 'O')])
+    for i, f in enumerate(case['filters']):
+        K[i]['X0'] = _np(f)
+    vb = np.zeros(len(case['beta_files']), dtype=[('fname', 'O')])
+    for i, f in enumerate(case['beta_files']):
+        vb[i]['fname'] = f
+    spm = {'nscan': np.array(case['nscans']), 'Vbeta': vb,
+           'xX': {'name': np.array(case['names'], dtype=object), 'K': K, 'iC': np.array(case['reg']),
+                  'xKXs': {'X': _np(case['X'])}, 'erdf': float(sum(case['nscans']) - len(case['names'])),
+                  'W': _np(case['W']), 'pKX': _np(case['pinvX'])},
+           'xY': {'P': np.array(case['raw'], dtype=object)}}
+    savemat(os.path.join(d, 'SPM.mat'), {'SPM': spm})
+    return d
+
+
+class _NitoolsRec(_Nitools):
+    """records which images are sampled; beta / ResMS images are coded by their position"""
+    def __init__(self, data):
+        super().__init__(data)
+        self.calls = []
+
+    def sample_images(self, files, coords, use_dataobj=True):
+        import numpy as np
+        self.calls.append((list(files), bool(use_dataobj)))
+        if use_dataobj:
+            return self.data.copy()
+        return np.array([[10.0 * i + j for j in range(self.data.shape[1])] for i in range(len(files))])
+
+
+def _impl_info(case):
+    import numpy as np
+    from rsatoolbox.io.spm import SpmGlm
+    d = write_spm_mat(case)
+    data = _np(case['data'])
+    nt = _NitoolsRec(data)
+    glm = SpmGlm(d + '/', nitoolsMock=nt)
+    glm.get_info_from_spm_mat()
+    root = os.path.dirname(d)
+    out = {'nscans': [int(x) for x in np.atleast_1d(glm.nscans)], 'nruns': int(glm.nruns),
+           'beta_files': list(glm.beta_files), 'beta_names': [str(x) for x in glm.beta_names],
+           'run_number': [int(x) for x in glm.run_number],
+           'rawdata_files': [os.path.relpath(f, root) if f.startswith(root) else f for f in glm.rawdata_files],
+           'filter_shapes': [list(np.shape(f)) for f in glm.filter_matrices]}
+    b, resms, info = glm.get_betas('mask')
+    files, dataobj = nt.calls[-1]
+    out['betas'] = {'files': [os.path.relpath(f, d) for f in files], 'use_dataobj': dataobj,
+                    'data': b.tolist(), 'resms': resms.tolist(),
+                    'reg_name': [str(x) for x in info['reg_name']],
+                    'run_number': [int(x) for x in info['run_number']]}
+    res, beta, info = glm.get_residuals('mask')
+    files, dataobj = nt.calls[-1]
+    out['resid'] = {'files_are_raw': files == list(glm.rawdata_files), 'use_dataobj': dataobj,
+                    'residuals': res.tolist(), 'beta': beta.tolist(),
+                    'reg_name': [str(x) for x in info['reg_name']],
+                    'run_number': [int(x) for x in info['run_number']]}
+    return out
+
+
+
 def impl(case):
     try:
         return _impl(case)
@@ -101,6 +210,8 @@ def _impl(case):
     import numpy as np
     if case['kind'] == 'relocate':
         return _glm(case).relocate_file(case['fpath'])
+    if case['kind'] == 'spm_info':
+        return _impl_info(case)
     data = _np(case['data'])
     glm = _glm(case, data)
     if case['kind'] == 'spm':
@@ -124,6 +235,11 @@ def requests(case):
     if case['kind'] == 'relocate':
         base = os.path.dirname(os.path.normpath(case['path']))
         return [{'op': 'c20.relocate', 'base': base, 'fpath': case['fpath']}]
+    if case['kind'] == 'spm_info':
+        return [{'op': 'c20.spm_info', 'names': case['names'], 'raw': case['raw'], 'base': 'ROOT',
+                 'path': 'GLM', 'beta_files': case['beta_files'], 'reg': case['reg']},
+                {'op': 'c20.spm_resid', 'nscans': case['nscans'], 'filters': case['filters'],
+                 'data': case['data'], 'W': case['W'], 'pinvX': case['pinvX'], 'X': case['X']}]
     req = {'op': 'c20.' + case['kind'], 'nscans': case['nscans'], 'filters': case['filters'],
            'data': case['data']}
     for k in ('W', 'pinvX', 'X'):
@@ -132,7 +248,30 @@ def requests(case):
     return [req]
 
 
+def _result_info(case, answers):
+    a, r = answers
+    if not (isinstance(a, dict) and 'run_number' in a and isinstance(r, dict) and 'residuals' in r):
+        return [a, r]
+    k, p = len(case['reg']), len(case['data'][0])
+    beta = [[float(F(x)) for x in row] for row in r['beta']]
+    return {'nscans': case['nscans'], 'nruns': len(case['nscans']),
+            'beta_files': case['beta_files'], 'beta_names': a['beta_names'], 'run_number': a['run_number'],
+            'rawdata_files': [f[len('ROOT/'):] if f.startswith('ROOT/') else f for f in a['rawdata_files']],
+            'filter_shapes': [[t, 2] for t in case['nscans']],
+            'betas': {'files': [f[len('GLM/'):] if f else f for f in a['betas_files']] + ['ResMS.nii'],
+                      'use_dataobj': False,
+                      'data': [[10.0 * i + j for j in range(p)] for i in range(k)],
+                      'resms': [10.0 * k + j for j in range(p)],
+                      'reg_name': a['betas_reg_name'], 'run_number': a['betas_run_number']},
+            'resid': {'files_are_raw': True, 'use_dataobj': True,
+                      'residuals': [[float(F(x)) for x in row] for row in r['residuals']],
+                      'beta': [beta[i] for i in a['resid_rows']],
+                      'reg_name': a['resid_reg_name'], 'run_number': a['resid_run_number']}}
+
+
 def result(case, answers):
+    if case['kind'] == 'spm_info':
+        return _result_info(case, answers)
     a = answers[0]
     if case['kind'] == 'relocate':
         return a
@@ -175,6 +314,34 @@ def oracle(case):
         return None
     out = impl(case)
     n = sum(case['nscans'])
+    if case['kind'] == 'spm_info' and not (isinstance(out, dict) and 'exc' in out):
+        import re
+        f = {'spm_op': 'spm_info', 'n_runs': len(case['nscans'])}
+        parsed = [re.match(r'Sn\((\d+)\) (\S+)$', nm).groups() for nm in case['names']]
+        idx = [r - 1 for r in case['reg']]
+        want = {
+            'nscans': case['nscans'], 'nruns': len(case['nscans']),
+            'run_number': [int(a) for a, _ in parsed], 'beta_names': [b for _, b in parsed],
+            'rawdata_files': ['func/' + r.replace('\\', '/').split('/func/')[1] for r in case['raw']],
+            'filter_shapes': [[t, 2] for t in case['nscans']]}
+        for k_, v in want.items():
+            if out[k_] != v:
+                return {'what': f'SPM.mat: {k_} differs from the file', 'observed': out[k_],
+                        'expected': v, 'features': f}
+        wb = {'files': [case['beta_files'][i] for i in idx] + ['ResMS.nii'],
+              'reg_name': [parsed[i][1] for i in idx], 'run_number': [int(parsed[i][0]) for i in idx]}
+        for k_, v in wb.items():
+            if out['betas'][k_] != v:
+                return {'what': f'get_betas: {k_} are not those of the regressors of interest',
+                        'observed': out['betas'][k_], 'expected': v, 'features': f}
+            if k_ != 'files' and out['resid'][k_] != v:
+                return {'what': f'get_residuals: {k_} are not those of the regressors of interest',
+                        'observed': out['resid'][k_], 'expected': v, 'features': f}
+        if not out['resid']['files_are_raw']:
+            return {'what': 'get_residuals does not sample the raw data files', 'observed': False,
+                    'expected': True, 'features': f}
+        out = {'residuals': out['resid']['residuals']}
+        case = dict(case, kind='spm_resid')
     if isinstance(out, dict) and 'exc' in out:
         return {'what': 'valid run structure rejected', 'observed': out, 'expected': 'filtered data',
                 'features': {'spm_op': case['kind'], 'n_runs': len(case['nscans'])}}
@@ -245,11 +412,15 @@ def shrink(case, still_fails):
 def feats(case, impl_res):
     if case['kind'] == 'relocate':
         return {'kind': 'relocate', 'spm_op': 'relocate', 'branches': ['spm:relocate']}
-    b = ['spm:filter' if case['kind'] == 'spm' else 'spm:resid']
+    b = ['spm:filter' if case['kind'] == 'spm' else 'spm:info' if case['kind'] == 'spm_info'
+         else 'spm:resid']
     if len(case['nscans']) > 1:
         b.append('spm:multi_run')
-    return {'kind': case['kind'], 'spm_op': 'spm_filter' if case['kind'] == 'spm' else 'get_residuals',
+    if case['kind'] == 'spm_info' and len(case['nscans']) == 1:
+        b.append('spm:info_single_run')
+    return {'kind': case['kind'], 'spm_op': {'spm': 'spm_filter', 'spm_info': 'spm_info'}.get(case['kind'], 'get_residuals'),
             'n_runs': len(case['nscans']), 'branches': b}
 
 
-BRANCHES = ['spm:filter', 'spm:resid', 'spm:multi_run', 'spm:relocate']
+BRANCHES = ['spm:filter', 'spm:resid', 'spm:multi_run', 'spm:relocate', 'spm:info',
+            'spm:info_single_run']
